@@ -8,6 +8,7 @@ package c20
 import (
 	"context"
 	"fmt"
+	"os"
 	"reflect"
 	"sort"
 	"strings"
@@ -17,6 +18,7 @@ import (
 
 	"verif/sim"
 	"verif/simrt"
+	"verif/simtest/c03"
 	. "verif/simtest/env"
 	"verif/simtest/syssim"
 )
@@ -80,6 +82,8 @@ func gen(p *simrt.Tape) any {
 	for i, n := 0, p.Pick(4); i < n; i++ {
 		pl.Missed = append(pl.Missed, stormFrom*spe+uint64(p.Intn((stormUntil-stormFrom+1)*spe)))
 	}
+	// reorg head events landing exactly when the slot's attestation job is due (cancel and re-schedule of a due job)
+	pl.CoincideReorg = p.Bool()
 	return pl
 }
 
@@ -134,6 +138,7 @@ func exec(plan any, sched *simrt.Tape) *sim.Outcome {
 	var pendViol *simrt.Violation
 	slotDur := time.Duration(pl.SecondsPerSlot) * time.Second
 	horizon := 10*time.Minute + time.Duration(pl.HorizonSlots+2)*slotDur + time.Minute
+	dueSeen = map[int]bool{}
 	res := sim.Run(sched, horizon, 3000000, nil, func(ctx context.Context) {
 		rec = syssim.Run(ctx, pl, &syssim.Hooks{
 			Mid: func(r *syssim.Record, s uint64, live *syssim.Incarnation) {
@@ -233,6 +238,8 @@ func exec(plan any, sched *simrt.Tape) *sim.Outcome {
 }
 
 // checkPending compares HasPendingAttestations with the job table as observed at the scheduler seam.
+var dueSeen = map[int]bool{}
+
 func checkPending(rec *syssim.Record, live *syssim.Incarnation, cur uint64, out *sim.Outcome) *simrt.Violation {
 	pl := rec.Plan
 	c := rec.Model.Chain
@@ -249,12 +256,16 @@ func checkPending(rec *syssim.Record, live *syssim.Incarnation, cur uint64, out 
 	if inflight {
 		return nil
 	}
-	// attestation jobs are recognised by their run time: slot start + the configured attestation delay
-	jobs := map[string]uint64{} // job id (opaque) -> slot
-	state := map[uint64]int{}   // slot -> number of outstanding attestation jobs
+	// attestation jobs are recognised by their run time: slot start + the configured attestation delay.
+	// A name can denote several job instances over time (cancel + re-schedule), so instances are tracked.
+	type inst struct {
+		slot                      uint64
+		started, ended, withdrawn bool
+	}
+	byName := map[string][]*inst{}
+	var all []*inst
 	var evs []*syssim.JobEvent
 	simrt.Crit(func() { evs = append(evs, rec.Jobs...) })
-	started := map[string]int{}
 	for _, e := range evs {
 		if e.Inc != live.N {
 			continue
@@ -268,34 +279,52 @@ func checkPending(rec *syssim.Record, live *syssim.Incarnation, cur uint64, out 
 			if off < 0 || off%slotDur != pl.MaxAttestationDelay {
 				continue
 			}
-			slot := uint64(off / slotDur)
-			jobs[e.Name] = slot
-			state[slot]++
-			delete(started, e.Name)
+			in := &inst{slot: uint64(off / slotDur)}
+			byName[e.Name] = append(byName[e.Name], in)
+			all = append(all, in)
+			if e.T >= off+(c.GenesisTime.Sub(SimEpoch)) && !dueSeen[e.Step] {
+				dueSeen[e.Step] = true
+				out.Probes["attestation-job-already-due-when-set-up"]++
+			}
 		case "start":
-			started[e.Name] = e.Step
+			for _, in := range byName[e.Name] {
+				if !in.started && !in.withdrawn {
+					in.started = true
+					break
+				}
+			}
 		case "end":
-			if slot, ok := jobs[e.Name]; ok {
-				state[slot]--
-				delete(jobs, e.Name)
+			for _, in := range byName[e.Name] {
+				if in.started && !in.ended {
+					in.ended = true
+					break
+				}
 			}
 		case "cancel":
 			if e.Err {
 				continue
 			}
-			if slot, ok := jobs[e.Name]; ok {
-				if _, running := started[e.Name]; !running {
-					state[slot]--
-					delete(jobs, e.Name)
+			// a successful cancellation withdraws the instance that has not started yet
+			l := byName[e.Name]
+			for i := len(l) - 1; i >= 0; i-- {
+				if !l[i].started && !l[i].withdrawn {
+					l[i].withdrawn = true
+					break
 				}
 			}
 		}
 	}
-	from := uint64(0)
-	if cur > 2*spe {
-		from = cur - 2*spe
+	state := map[uint64]int{} // slot -> number of outstanding attestation jobs
+	for _, in := range all {
+		if !in.ended && !in.withdrawn {
+			state[in.slot]++
+		}
 	}
-	for s := from; s <= cur+3*spe; s++ {
+	from := uint64(0)
+	if cur > 2*pl.SlotsPerEpoch {
+		from = cur - 2*pl.SlotsPerEpoch
+	}
+	for s := from; s <= cur+3*pl.SlotsPerEpoch; s++ {
 		want := state[s] > 0
 		got := live.Sys.Controller.HasPendingAttestations(context.Background(), phase0.Slot(s))
 		if want {
@@ -313,6 +342,56 @@ func checkPending(rec *syssim.Record, live *syssim.Incarnation, cur uint64, out 
 	return nil
 }
 
+// execPending runs the short whole-system plans of C03 (restarts, reorgs at every phase of a slot, slow and
+// failing duty requests) and checks the pending-attestation marks only.
+func execPending(plan any, sched *simrt.Tape) *sim.Outcome {
+	pl := plan.(*syssim.Plan)
+	out := &sim.Outcome{Probes: map[string]int{}, Sample: pl, Nontrivial: len(pl.Reorgs) > 0}
+	var pendViol *simrt.Violation
+	slotDur := time.Duration(pl.SecondsPerSlot) * time.Second
+	horizon := 10*time.Minute + time.Duration(pl.HorizonSlots+2)*slotDur + time.Minute
+	dueSeen = map[int]bool{}
+	var rec *syssim.Record
+	res := sim.Run(sched, horizon, 600000, nil, func(ctx context.Context) {
+		rec = syssim.Run(ctx, pl, &syssim.Hooks{Mid: func(r *syssim.Record, s uint64, live *syssim.Incarnation) {
+			if live == nil || live.Sys == nil || pendViol != nil {
+				return
+			}
+			pendViol = checkPending(r, live, s, out)
+		}})
+	})
+	out.Res = res
+	if res.Violation != nil {
+		out.Violation = res.Violation
+		switch res.Violation.Kind {
+		case "panic", "deadlock", "horizon":
+			out.Violation.Kind = "C20/" + res.Violation.Kind
+		}
+		return out
+	}
+	if len(rec.BuildErrors) > 0 {
+		out.Violation = Viol("harness-build", "services failed to start: %v", rec.BuildErrors)
+		return out
+	}
+	out.Violation = pendViol
+	if pendViol != nil && os.Getenv("VERIF_DEBUG") != "" {
+		for _, j := range rec.Jobs {
+			if j.Class == "Attest" || strings.HasPrefix(j.Name, "Attestations") {
+				fmt.Fprintf(os.Stderr, "JOB inc=%d %s %q at=%v t=%v step=%d err=%v\n", j.Inc, j.Op, j.Name, j.At.Sub(SimEpoch), j.T, j.Step, j.Err)
+			}
+		}
+	}
+	return out
+}
+
 func init() {
-	sim.Register(&sim.Scenario{Property: "C20", Name: "longrun", Gen: gen, Exec: exec})
+	sim.Register(&sim.Scenario{Property: "C20", Name: "longrun", Gen: gen, Exec: exec, Weight: 1})
+	sim.Register(&sim.Scenario{Property: "C20", Name: "pending-marks", Exec: execPending, Weight: 3, Gen: func(p *simrt.Tape) any {
+		pl := c03.Gen(false)(p).(*syssim.Plan)
+		// attestation jobs are recognised by their run time within the slot: keep the other delays off it
+		slot := time.Duration(pl.SecondsPerSlot) * time.Second
+		pl.MaxSyncMessageDelay = slot / 4
+		pl.SyncAggregationDelay = slot * 7 / 12
+		return pl
+	}})
 }
